@@ -13,7 +13,7 @@ ap.add_argument("--tier", default="quick")
 ap.add_argument("--equiv", action="store_true", help="run the bank of behaviour-preserving edits: every check must stay silent")
 args = ap.parse_args()
 want = set(filter(None, args.p.split(",")))
-BIN = "/verif/bin/stargzlint"
+BIN = os.environ.get("STARGZLINT", "/verif/bin/stargzlint")
 muts = []
 for fn in sorted(glob.glob("/verif/equivalents/*.json" if args.equiv else "/verif/mutants/*.json")):
     for m in json.load(open(fn)):
